@@ -219,8 +219,10 @@ func genC03RC(seed uint64, r *rng.Rand) *Plan {
 	return p
 }
 
-func runC03RC(p *Plan, keep bool) *Outcome {
-	out := &Outcome{Profile: "c03rc", Seed: p.Seed, Extra: map[string]int{}}
+func runC03RC(p *Plan, keep bool) *Outcome { return runRC(p, keep, "c03rc") }
+
+func runRC(p *Plan, keep bool, mode string) *Outcome {
+	out := &Outcome{Profile: mode, Seed: p.Seed, Extra: map[string]int{}}
 	pan := simrt.Run(p.Seed, true, func() {
 		c := BuildCluster(p.Layout)
 		e := NewEnv(p.Seed, c)
@@ -316,10 +318,13 @@ func runC03RC(p *Plan, keep bool) *Outcome {
 			}
 		}
 		out.Reason = reason
+		if mode == "c18" {
+			reason = out.Reason
+		}
 		failedBefore := w.failed()
 		// after the failure: new calls must be refused immediately (no time, no network)
 		var late []*rcCall
-		if failedBefore && w.dialErr == nil || failedBefore {
+		if mode != "c18" && failedBefore {
 			e.Quiet = true
 			simrt.Go("late", func() {
 				op := &Op{Kind: "get", Table: "t", Key: []byte("k"), Nonce: 999001}
@@ -341,6 +346,31 @@ func runC03RC(p *Plan, keep bool) *Outcome {
 			})
 			e.Loop(func() bool { return false })
 			e.Quiet = false
+		}
+		if mode == "c18" {
+			checkC18(w, out, root, reason)
+			out.Steps, out.FakeNS, out.Digest, out.NEv = e.Step, int64(e.Now()), e.Digest(), e.NEv
+			out.Stats = e.Stats
+			out.Trace = e.Trace
+			e.frozen = true
+			simrt.Free()
+			stop()
+			for _, cl := range w.calls {
+				cl.cancel()
+			}
+			w.rc.Close()
+			for _, cn := range e.Conns {
+				cn.mu.Lock()
+				if !cn.closed {
+					cn.closed = true
+					cn.signal()
+				}
+				cn.mu.Unlock()
+			}
+			for i := 0; i < 10; i++ {
+				time.Sleep(time.Minute)
+			}
+			return
 		}
 		// ---- oracle ----
 		add := func(oracle, format string, a ...any) {
